@@ -58,7 +58,9 @@ sig_where(char *buf, size_t bsz)
 {
 	char site[48], tok[32];
 	xt_label_last(tok, sizeof(tok));
-	if (xr_sig == SIGALRM || xr_sig == SIGABRT) {
+	if (xr_sig == SIGABRT) {
+		snprintf(buf, bsz, "%s", xg_signame(xr_sig));
+	} else if (xr_sig == SIGALRM) {
 		snprintf(buf, bsz, "%s, last specifier %s", xg_signame(xr_sig), tok);
 	} else {
 		snprintf(buf, bsz, "%s in %s, last specifier %s", xg_signame(xr_sig), xs_name(xr_sig_pc, site, sizeof(site)), tok);
@@ -525,6 +527,7 @@ unit_U(uint64_t idx)
 	}
 	++*c_cases;
 	/* the string is an argv element in the tools; here: output slot, exact size, canaries around */
+	xa_out.what = "string";
 	xa_open(&xa_out, len + 1);
 	p = (char*)xa_out.p;
 	memcpy(p, s, len + 1);
